@@ -1079,10 +1079,10 @@ def classify(a):
     if a.get("error"):
         return None
     if a["placement"] == "none":
-        con = (a["failing_doc"] or [x[0] for x in a["raising"]] or [None])[0]
+        con = (a["failing_doc"] or a["failing_real"] or [x[0] for x in a["raising"]] or [None])[0]
         return ({"kind": "crash", "net": net, "crash": (a.get("crash") or "")[:120], "constraint": con},
                 "compiler crashed (%s) on an operator %s: %s" % (a.get("crash"), "for which every listed constraint holds" if a["doc_all"]
-                                                                 else "that violates listed constraint(s) %s and had to stay on the CPU" % (a["failing_doc"] or a["raising"]), net))
+                                                                 else "that violates listed constraint(s) %s and had to stay on the CPU" % (a["failing_doc"] or a["failing_real"] or a["raising"]), net))
     if a["placement"] == "removed":
         return ({"kind": "removed", "net": net}, "operator is neither in an ethos-u operator nor on the CPU in the output (%s)" % net)
     if a["placement"] == "npu" and not a["doc_all"]:
